@@ -146,3 +146,30 @@ def c19_tokenize(n):
                      lambda: {'input': s, 'token': txt, 'position': t.position})
         o += len(txt)
     return ('ok', [(SX.raw(t.text), t.position) for t in toks])
+
+
+# ----------------------------------------------------------------------------------------------- C06 nesting depth
+NEST = {
+    'group': ('{', '}'), 'bracket-arg': ('\\a[', ']'), 'brace-arg': ('\\a{', '}'), 'env': ('\\begin{e}', '\\end{e}'),
+    'math-group': ('$\\a{', '}$'), 'env-cmd': ('\\begin{e}\\a{', '}\\end{e}'), 'item-cmd': ('\\item\\a{', '}'),
+    'item-group': ('\\item{', '}'), 'item-env': ('\\item\\begin{e}', '\\end{e}'), 'cmd-env': ('\\a{\\begin{e}', '\\end{e}}'),
+    'env-mismatch': ('\\begin{a}', '\\end{b}'), 'open-only': ('\\begin{e}\\a{', ''), 'dollar-group': ('{$', '$}'),
+    'env-arg': ('\\begin{e}[', ']\\end{e}'), 'mathenv-cmd': ('\\begin{equation}\\a{', '}\\end{equation}'),
+}
+
+
+def c06_depth(kind, d, tol):
+    op, cl = NEST[kind]
+    leaf = SX.fresh(1)
+    pre, post = ('\\begin{itemize}', '\\end{itemize}') if kind.startswith('item') else ('', '')
+    s = pre + op * d + leaf + cl * d + post
+    try:
+        soup = TexSoup(s, tolerance=tol)
+    except RecursionError:
+        return ('recursion',)
+    except Exception as e:
+        SX.check(diag_ok(e), 'C06:internal-exception:' + type(e).__name__,
+                 lambda: {'sig': exc_sig(e), 'input': s[:120], 'tolerance': tol, 'error': repr(e)[:300]})
+        return ('diag', type(e).__name__)
+    SX.check(True, 'C06:returns-tree')
+    return ('ok', len(SX.raw(str(soup))))
